@@ -155,3 +155,69 @@ Theorem single_group_sources_identity :
     (forall x, In x (t_nums t) <-> exists g, In g (t_groups t) /\ in_grp x g) /\ pdisj (t_groups t).
 Proof. exact single_group_sources. Qed.
 Print Assumptions single_group_sources_identity.
+
+(* chan2readoutOrder (updateChanOrderMap) sends the stream of (card, column, row, err/fb) to the position
+   that triple has in the card's readout: prev + (row*ncols + col)*2 + e. *)
+Theorem chan_order_consistent :
+  forall devs, dims_nonneg devs -> forall prev, chan_order devs prev = lancero_order devs prev.
+Proof. exact chan_order_eq. Qed.
+Print Assumptions chan_order_consistent.
+
+(* Abaco: the order in which the groups (keys of a Go map, packets of concurrent producers) are visited
+   does not influence the decision nor the tables. *)
+Theorem abaco_order_irrelevant :
+  forall pk pk',
+    Permutation pk pk' -> Forall (fun p => 1 <= fst p) pk -> abaco_sample pk = abaco_sample pk'.
+Proof. exact abaco_order_irrelevant_lemma. Qed.
+Print Assumptions abaco_order_irrelevant.
+
+(* The tables the model produces for an accepted Lancero configuration pass the observable checker ... *)
+Theorem lancero_model_satisfies_checker :
+  forall s s' t,
+    NoDup (map c_dev (l_active s)) -> dims_in_field (l_active s) ->
+    lancero_prepare s = (s', Some t) ->
+    check_lancero (l_active s) t (l_mixed s') (chan_order (l_active s') 0) = true.
+Proof. exact lancero_model_passes_checker. Qed.
+Print Assumptions lancero_model_satisfies_checker.
+
+(* ... and what the checker's "true" means, for tables from any origin (independent of the model): *)
+Theorem lancero_checker_sound :
+  forall cards t mixed order,
+    check_lancero cards t mixed order = true ->
+    let n := zlen (lancero_geos cards) in
+    NoDup (map c_dev cards) /\
+    zlen (t_nums t) = 2 * n /\
+    (forall p q, 0 <= p < 2 * n -> 0 <= q < 2 * n ->
+       (znth 0 (t_nums t) p = znth 0 (t_nums t) q <-> p / 2 = q / 2)) /\
+    NoDup (t_names t) /\
+    (forall x, In x (t_nums t) <-> exists g, In g (t_groups t) /\ in_grp x g) /\ pdisj (t_groups t) /\
+    (forall p, 0 <= p < 2 * n ->
+       let g := znth geo0 (lancero_geos cards) (p / 2) in let c := znth 0 (t_rc t) p in
+       rc_row c = g_row g /\ rc_col c = g_col g /\ rc_rows c = g_rows g /\ rc_cols c = g_cols g).
+Proof. exact check_lancero_sound. Qed.
+Print Assumptions lancero_checker_sound.
+
+Theorem abaco_checker_sound :
+  forall pk t,
+    check_abaco pk t = true ->
+    (forall g, In g (t_groups t) <-> In g (announced pk)) /\
+    t_nums t = gnums (t_groups t) /\ NoDup (t_nums t) /\
+    t_names t = map chan_name (t_nums t) /\ NoDup (t_names t) /\
+    (forall x, In x (t_nums t) <-> exists g, In g (t_groups t) /\ in_grp x g) /\ pdisj (t_groups t).
+Proof. exact check_abaco_sound. Qed.
+Print Assumptions abaco_checker_sound.
+
+(* after a START: no two streams (or formats) share a file, and every header carries the identity that the
+   tables (status messages) give to the stream *)
+Theorem files_checker_sound :
+  forall t source with_off cf nfiles,
+    check_files t source with_off cf nfiles = true ->
+    zlen cf = zlen (t_names t) /\
+    NoDup (map f_ljh cf ++ map f_ljh3 cf ++ (if with_off then map f_off cf else [])) /\
+    forall k, 0 <= k < zlen cf ->
+      let f := znth (mkCF EmptyString 0 EmptyString EmptyString EmptyString (status_ident t source 0) None) cf k in
+      let id := status_ident t source k in
+      f_dspname f = i_chname id /\ f_dspnum f = i_chnum id /\ ident_eqb (f_hd f) id = true /\
+      (with_off = true -> exists h, f_offhd f = Some h /\ ident_eqb h id = true).
+Proof. exact check_files_sound. Qed.
+Print Assumptions files_checker_sound.
